@@ -87,7 +87,7 @@ Decode1(bs, p) ==
            coding == IF row.rev THEN Reverse(row.ops) ELSE row.ops
            r == AtomsDecode(coding, 1, bs, p + 1, <<>>)
        IN IF r.fate # "ok" THEN [fate |-> r.fate, len |-> 0, op |-> o]
-          ELSE [fate |-> "ok", len |-> r.n - p, op |-> o, mn |-> row.mn, kind |-> row.kind,
+          ELSE [fate |-> "ok", len |-> r.n - p, op |-> o, mn |-> row.mn, kind |-> row.kind, cls |-> row.cls, cond |-> row.cond,
                 ops |-> IF row.rev THEN Reverse(r.f) ELSE r.f]      \* logical operand order
 
 \* one instruction with prefix fusion.  fate "lone" = an addressing prefix that cannot fuse.
